@@ -70,4 +70,15 @@ def silentOrigin (closeOnClear : Bool) (s : Shared) : Shared × Outcome :=
 /-- a stateless connector: the outcome of a request depends only on the upstream's state when it is made -/
 def statelessAttempt (upstreamUp : Bool) : Outcome := if upstreamUp then .ok else .failFast
 
+/-- a round-robin balancer over stateless members: the member whose turn it is decides; nothing is remembered -/
+def lbAttempt (up : Nat → Bool) (n rr : Nat) : Outcome := statelessAttempt (up (rr % n))
+
+/-- the variant of seeded change C19d: a member that failed is marked and never tried again (marks are cleared only by
+    a success of that member, which cannot happen any more); `none` left to try = fail -/
+def lbStickyAttempt (up : Nat → Bool) (failed : List Nat) (n rr : Nat) : List Nat × Outcome :=
+  match (List.range n).filter (fun m => !failed.contains m) with
+  | [] => (failed, .failFast)
+  | cand => let m := cand.getD (rr % cand.length) 0
+            if up m then (failed, .ok) else (m :: failed, .failFast)
+
 end Redproxy.QuicCache
